@@ -49,6 +49,7 @@ from .ast_nodes import (
     FunctionExpression,
     ArrowFunctionExpression,
 )
+from .errors import JSSyntaxError
 from .opcodes import OpCode
 from .values import UNDEFINED
 
@@ -759,7 +760,7 @@ class Compiler:
 
         elif isinstance(node, BreakStatement):
             if not self.loop_stack:
-                raise SyntaxError("'break' outside of loop")
+                raise JSSyntaxError("'break' outside of loop")
 
             # Find the right loop context (labeled or innermost loop/switch)
             target_label = node.label.name if node.label else None
@@ -780,9 +781,9 @@ class Compiler:
 
             if ctx is None:
                 if target_label:
-                    raise SyntaxError(f"label '{target_label}' not found")
+                    raise JSSyntaxError(f"label '{target_label}' not found")
                 else:
-                    raise SyntaxError("'break' outside of loop")
+                    raise JSSyntaxError("'break' outside of loop")
 
             # Leave everything between here and the target
             self._emit_unwind(self._loop_index(ctx))
@@ -792,7 +793,7 @@ class Compiler:
 
         elif isinstance(node, ContinueStatement):
             if not self.loop_stack:
-                raise SyntaxError("'continue' outside of loop")
+                raise JSSyntaxError("'continue' outside of loop")
 
             # Find the right loop context (labeled or innermost loop, not switch)
             target_label = node.label.name if node.label else None
@@ -807,7 +808,7 @@ class Compiler:
                     break
                 if loop_ctx.label == target_label:
                     if not loop_ctx.labels_loop:
-                        raise SyntaxError(
+                        raise JSSyntaxError(
                             f"'continue {target_label}' does not target a loop"
                         )
                     # The label's own context only collects breaks; continue
@@ -819,7 +820,7 @@ class Compiler:
                     break
 
             if ctx is None:
-                raise SyntaxError(f"label '{target_label}' not found")
+                raise JSSyntaxError(f"label '{target_label}' not found")
 
             # Leave everything between here and the loop
             self._emit_unwind(self._loop_index(ctx))
